@@ -311,31 +311,29 @@ Definition enc_calls (cs : list mapcall) : list N :=
 Definition free_code (r : free_result) : N :=
   match r with FreeOk => 0 | FreeNotManaged => 1 | FreeDoubleFree => 2 | FreePanic => 9 end.
 
-Fixpoint run_ops (fuel : nat) (a : balloc) (results : list N) (l : list N) : list N :=
+(** [results]: the frames returned by successful allocations so far, most recent first, [n] of them *)
+Fixpoint run_ops (fuel : nat) (a : balloc) (n : N) (results : list N) (l : list N) : list N :=
   match fuel with O => [] | S fuel' =>
   match l with
   | 0 :: rest =>
       let '(a', r) := bitmap_alloc a in
       match r with
-      | Some f => [1; f; a_total a'; a_reserved a'] ++ run_ops fuel' a' (results ++ [f]) rest
-      | None => [0; mm_InvalidFrame; a_total a'; a_reserved a'] ++ run_ops fuel' a' results rest
+      | Some f => [1; f; a_total a'; a_reserved a'] ++ run_ops fuel' a' (n + 1) (f :: results) rest
+      | None => [0; mm_InvalidFrame; a_total a'; a_reserved a'] ++ run_ops fuel' a' n results rest
       end
   | 1 :: f :: rest =>
       let '(a', r) := bitmap_free a f in
       match r with
       | FreePanic => [9]
-      | _ => [free_code r; a_total a'; a_reserved a'] ++ run_ops fuel' a' results rest
+      | _ => [free_code r; a_total a'; a_reserved a'] ++ run_ops fuel' a' n results rest
       end
   | 2 :: k :: rest =>
-      match results with
-      | [] => run_ops fuel' a results rest
-      | _ =>
-          let f := nth (N.to_nat (k mod N.of_nat (length results))) results 0 in
-          let '(a', r) := bitmap_free a f in
-          match r with
-          | FreePanic => [9]
-          | _ => [free_code r; a_total a'; a_reserved a'] ++ run_ops fuel' a' results rest
-          end
+      if n =? 0 then run_ops fuel' a n results rest else
+      let f := nth (N.to_nat (n - 1 - k mod n)) results 0 in
+      let '(a', r) := bitmap_free a f in
+      match r with
+      | FreePanic => [9]
+      | _ => [free_code r; a_total a'; a_reserved a'] ++ run_ops fuel' a' n results rest
       end
   | _ => []
   end end.
@@ -352,7 +350,7 @@ Definition run_case (l : list N) : list N :=
                       | InitStray => 7 | InitPanic => 9 | InitHang => 10 end in
           [code; o_req obs] ++ enc_calls (o_calls obs) ++
           match r with
-          | InitOk a _ => [a_total a; a_reserved a] ++ run_ops (length ops) a [] ops
+          | InitOk a _ => [a_total a; a_reserved a] ++ run_ops (length ops) a 0 [] ops
           | _ => []
           end
       | _ => []
